@@ -320,6 +320,38 @@ def h264DecodeAll (d : H264Dec) : List Pkt → H264Dec × DecRes (List NALU)
     | (d', .more) => h264DecodeAll d' rest
     | (d', r) => (d', r)
 
+/-! ### (b3) Opus (`rtpEncoderOpus.encode` in rtp_encoder.go — MediaMTX's own code around `rtpsimpleaudio`)
+
+Every Opus packet of the unit becomes one RTP packet (payload = the packet, no marker); packet `i` is stamped
+with the summed durations of the packets before it (`pts += opus.PacketDuration2(packet)`), in 1/48000 s. -/
+
+/-- `frameSizes[pkt[0]>>3]` (RFC 6716 §3.1) -/
+def opusFrameSizes : List Nat :=
+  [480, 960, 1920, 2880, 480, 960, 1920, 2880, 480, 960, 1920, 2880, 480, 960, 480, 960,
+   120, 240, 480, 960, 120, 240, 480, 960, 120, 240, 480, 960, 120, 240, 480, 960]
+
+/-- `opus.PacketDuration2` -/
+def opusDur (pkt : Bytes) : Nat :=
+  match pkt with
+  | [] => 0
+  | b0 :: rest =>
+    let fd := opusFrameSizes.getD (b0 >>> 3).toNat 0
+    match (b0 &&& 3).toNat, rest with
+    | 0, _ => fd
+    | 1, _ => fd * 2
+    | 2, _ => fd * 2
+    | _, [] => 0
+    | _, b1 :: _ => fd * (b1 &&& 63).toNat
+
+def opusPackFrom (acc : Nat) : List Bytes → List Raw
+  | [] => []
+  | p :: rest => { marker := false, payload := p, dts := acc } :: opusPackFrom (acc + opusDur p) rest
+
+def opusPack (pkts : List Bytes) : List Raw := opusPackFrom 0 pkts
+
+/-- the depacketiser: one Opus packet per RTP packet -/
+def opusUnpack (raws : List Raw) : Option (List Bytes) := some (raws.map (·.payload))
+
 /-! ### the whole life of a stream format: several sub streams (always-available paths)
 
 `streamFormat` (encoder, `rtpTimeOffset`) belongs to the STREAM; every sub stream (offline filler, publisher,
